@@ -370,13 +370,13 @@ where
             return None;
         }
 
-        if !COMPRESSED && symbol > *self.sigma.as_ref().unwrap() {
+        if !COMPRESSED && symbol > *self.sigma.as_ref()? {
             return None;
         }
 
         if COMPRESSED
-            && (symbol.as_() >= self.codes_encode.as_ref().unwrap().len()
-                || self.codes_encode.as_ref().unwrap()[symbol.as_() as usize].len == 0)
+            && (symbol.as_() >= self.codes_encode.as_ref()?.len()
+                || self.codes_encode.as_ref()?[symbol.as_() as usize].len == 0)
         {
             return None;
         }
